@@ -359,3 +359,21 @@ Proof.
   { induction l as [|d r IH]; intros acc Hacc; simpl; [exact Hacc|]. apply IH. apply sadd_NoDup. exact Hacc. }
   apply H. constructor.
 Qed.
+
+Lemma sunion_NoDup : forall r l, NoDup l -> NoDup (sunion l r).
+Proof.
+  unfold sunion. induction r as [|x r IH]; intros l H; simpl; [exact H|]. apply IH. apply sadd_NoDup. exact H.
+Qed.
+
+Lemma edge_o_proj_NoDup : forall (edge_o : list (ds * list N)) t, NoDup (adj (edge_o_proj edge_o) t).
+Proof.
+  intros edge_o. unfold edge_o_proj. change (fold_left _ edge_o []) with (fold_left proj_step edge_o []).
+  assert (H : forall entries proj, (forall t, NoDup (adj proj t)) -> forall t, NoDup (adj (fold_left proj_step entries proj) t)).
+  { induction entries as [|p r IH]; intros proj Hp; simpl; [exact Hp|]. apply IH. intros t. unfold proj_step.
+    set (k := fst (fst p)). set (l := sunion (adj proj k) (snd p)).
+    change (NoDup (getd N.eqb (dset N.eqb k l proj) t)).
+    destruct (N.eq_dec k t) as [E|E].
+    - rewrite <- E. rewrite (getd_dset_eq _ _ _ Neqb_spec). apply sunion_NoDup. apply Hp.
+    - rewrite (getd_dset_neq _ _ _ Neqb_spec) by exact E. exact (Hp t). }
+  apply H. intros t. constructor.
+Qed.
